@@ -14,6 +14,9 @@ Inductive site_class :=
   | MapIntoMap            (* a map's entries are inserted into another map that is only ever looked up by key: the order
                              matters only when two providers report the same key (MultiSymbolProvider: one provider
                              reports stats; single-provider Symbolizer stats are c13_stats_independent) *)
+  | SetBeforeUse          (* a thread_local cell that every printer sets from the report itself (set_print_context, first
+                             statement of print_internal / print_json) before the only reader (Display for Address) can run in
+                             the same synchronous call: no value survives from one report to the next *)
   | InPlaceByIndex.       (* join_all over iter_mut(): future i owns slot i, results are not collected at all:
                              c13_walks_in_place_interleaving_independent, c13_join_by_index *)
 
@@ -30,4 +33,10 @@ Definition modelled_hash_sites : list ((string * string * string) * site_class) 
 Definition modelled_concurrency_sites : list ((string * string * string) * site_class) := [
   (("processor/processor.rs", "into_process_state",
     "futures_util::future::join_all(state.threads.iter_mut().zip(self.thread_list.threads.iter()).enumerate()"), InPlaceByIndex)
+].
+
+(* state that survives an evaluation / a walk / a report: any NEW cell of this kind (for instance a scratch buffer shared by
+   the evaluations of different walks) has to be argued here before the check is green again *)
+Definition modelled_shared_state_sites : list ((string * string * string) * site_class) := [
+  (("processor/process_state.rs", "thread_local SERIALIZATION_CONTEXT", "RefCell<SerializationContext>"), SetBeforeUse)
 ].
